@@ -6,9 +6,12 @@ package olareg
 import (
 	"context"
 	"fmt"
+	"io"
 	"net/http"
+	"net/http/httptest"
 	"os"
 	"path/filepath"
+	"strconv"
 	"testing"
 	"time"
 
@@ -87,4 +90,150 @@ func TestVerifLegacy(t *testing.T) {
 	h.lineNo = 2
 	h.closeServer()
 	h.summary(2)
+}
+
+// TestVerifCollectorWait: a request that waits for a collection holds nothing another request needs.
+// R1 (manifest PUT to `busy` whose body arrives slowly over a pipe) holds the repository; a collection of `busy` (ticker, or with
+// VERIF_PRUNE=1 the prune timer of the repository cache) then waits for R1; R2 to `busy` without deadline waits behind the
+// collection (expected); R3 to `busy` with a 200 ms context must return once it expires; R4 to the unrelated repository
+// `other` must complete; then R1 finishes and everything drains.  No timing assumption in the passing direction: R3 and R4
+// are awaited with the generous bound while R1 is still blocked on its pipe; exceeding the bound is the violation (goroutine
+// dump in the replay).  If the collection cannot be brought to wait the scenario says so and judges nothing.
+func TestVerifCollectorWait(t *testing.T) {
+	if os.Getenv("VERIF_IMPL") == "" {
+		t.Skip("verification harness: run through /verif/bin/check")
+	}
+	h, finish := vcNewHarness(t)
+	defer finish()
+	store := os.Getenv("VERIF_STORE")
+	if store != "dir" {
+		store = "mem"
+	}
+	prune := os.Getenv("VERIF_PRUNE") == "1"
+	grace, _ := strconv.Atoi(os.Getenv("VERIF_GRACE_MS"))
+	params := []string{"store=" + store, "max=0", "rate=0", "freq=40", "grace=0"}
+	if prune { // no ticker (it would keep the cache entries fresh); entries of the repository cache age out after the grace period
+		if grace <= 0 {
+			grace = 150
+		}
+		params = []string{"store=" + store, "max=0", "rate=0", "freq=0", "grace=" + strconv.Itoa(grace)}
+	}
+	h.lineNo = 1
+	h.newServer(params)
+	bg := context.Background()
+	step := 1
+	// await runs one request in its own goroutine and waits for it with the bound; a stall ends the test with the dump
+	type pending struct {
+		what string
+		done chan string
+	}
+	start := func(what string, f func() string) *pending {
+		p := &pending{what, make(chan string, 1)}
+		go func() { p.done <- f() }()
+		return p
+	}
+	await := func(p *pending) string {
+		step++
+		select {
+		case a := <-p.done:
+			fmt.Fprintln(h.impl, p.what, a)
+			return a
+		case <-time.After(h.bound):
+			h.stall(step, p.what, "completes")
+			return ""
+		}
+	}
+	code := func(rr *httptest.ResponseRecorder) string { return strconv.Itoa(rr.Code) }
+	for i := 0; i < 3; i++ {
+		b, d := vcBlob(i)
+		await(start("setup blob "+strconv.Itoa(i), func() string {
+			return code(h.do(bg, "POST", "/v2/busy/blobs/uploads/?digest="+d.String(), b, nil))
+		}))
+	}
+	ob, od := vcBlob(0)
+	await(start("setup other", func() string { return code(h.do(bg, "POST", "/v2/other/blobs/uploads/?digest="+od.String(), ob, nil)) }))
+	// R1: the first half of the manifest is consumed by the handler (a pipe write returns when it was read), the rest is held back
+	man, _ := vcManifest(0)
+	pr, pw := io.Pipe()
+	r1 := start("R1 slow manifest PUT to busy", func() string {
+		req := httptest.NewRequest("PUT", "/v2/busy/manifests/slow", pr)
+		req.RemoteAddr = "192.0.2.1:1234"
+		req.Header.Set("Content-Type", types.MediaTypeOCI1Manifest)
+		rr := httptest.NewRecorder()
+		h.srv.ServeHTTP(rr, req)
+		return strconv.Itoa(rr.Code)
+	})
+	wrote := make(chan struct{})
+	go func() { _, _ = pw.Write(man[:len(man)/2]); close(wrote) }()
+	select {
+	case <-wrote:
+	case <-time.After(h.bound):
+		h.stall(step, "R1 never read its body", "completes")
+	}
+	r1Blocked := func() bool {
+		select {
+		case a := <-r1.done:
+			r1.done <- a
+			return false
+		default:
+			return true
+		}
+	}
+	// bring a collection of `busy` to wait for R1
+	established := false
+	var r2 *pending
+	bump := 0
+	for attempt := 0; attempt < 25 && !established && r1Blocked(); attempt++ {
+		if prune {
+			time.Sleep(time.Duration(3*grace) * time.Millisecond) // idle: the cache entry of `busy` ages out, its cleanup collects
+		} else {
+			// a repository is only collected after a change: push a new blob (leaves no session behind); the request gets a
+			// deadline because a collection may already be waiting
+			bump++
+			b := []byte("bump-" + strconv.Itoa(bump))
+			await(start("bump busy", func() string {
+				ctx, cancel := context.WithTimeout(bg, 300*time.Millisecond)
+				defer cancel()
+				return code(h.do(ctx, "POST", "/v2/busy/blobs/uploads/?digest="+digest.Canonical.FromBytes(b).String(), b, nil))
+			}))
+			time.Sleep(150 * time.Millisecond)
+		}
+		// R2: no deadline; if it is still waiting after a while, a collection holds the token
+		p := start("R2 tags of busy without deadline", func() string { return code(h.do(bg, "GET", "/v2/busy/tags/list", nil, nil)) })
+		select {
+		case a := <-p.done:
+			fmt.Fprintln(h.impl, "probe", a)
+		case <-time.After(400 * time.Millisecond):
+			established, r2 = true, p
+		}
+	}
+	if !established || !r1Blocked() {
+		fmt.Println("VERIF-NOTE collector wait not established; nothing judged")
+		fmt.Fprintln(h.impl, "not-established")
+	} else {
+		// R3 and R4 are issued while R1 is blocked on its pipe and the collection waits for it
+		r3 := start("R3 tags of busy with a 200 ms context (must return when it expires)", func() string {
+			ctx, cancel := context.WithTimeout(bg, 200*time.Millisecond)
+			defer cancel()
+			return code(h.do(ctx, "GET", "/v2/busy/tags/list", nil, nil))
+		})
+		r4 := start("R4 tags of the unrelated repository other (must not wait for busy)", func() string {
+			return code(h.do(bg, "GET", "/v2/other/tags/list", nil, nil))
+		})
+		await(r3)
+		await(r4)
+		if !r1Blocked() {
+			fmt.Println("VERIF-NOTE R1 finished early")
+		}
+		fmt.Println("VERIF-NOTE collector wait established and judged")
+	}
+	// R1 finishes, everything drains
+	go func() { _, _ = pw.Write(man[len(man)/2:]); pw.Close() }()
+	await(r1)
+	if r2 != nil {
+		await(r2)
+	}
+	h.lineNo = step + 1
+	h.closeServer()
+	h.summary(step)
 }
